@@ -108,11 +108,45 @@ func ruleR19_2(p *Program, r *Report) {
 	}
 	// every context returned by buildLZ77 has windowLevel set: each MakeInterface'd allocation has such a store
 	// generate: lz77(..., historySize = 1 << c.windowLevel, ...)
+	// every call of the Go finder, in generate or in a helper it is reached through: the history size is
+	// 1 << X where X is the context's windowLevel (directly, or a helper parameter that every caller binds to it)
+	var isWindowLevel func(v ssa.Value, fn *ssa.Function, depth int) bool
+	isWindowLevel = func(v ssa.Value, fn *ssa.Function, depth int) bool {
+		v = stripConv(v)
+		if _, sel, isL := fieldLoad(v); isL && sel == ".windowLevel" {
+			return true
+		}
+		prm, isP := v.(*ssa.Parameter)
+		if !isP || depth > 3 {
+			return false
+		}
+		idx := -1
+		for i, q := range fn.Params {
+			if q == prm {
+				idx = i
+			}
+		}
+		if idx < 0 {
+			return false
+		}
+		sites := 0
+		for _, g := range p.Funcs() {
+			for _, cc := range allCalls(g) {
+				if cc.Common().StaticCallee() != fn || idx >= len(cc.Common().Args) {
+					continue
+				}
+				sites++
+				if !isWindowLevel(cc.Common().Args[idx], g, depth+1) {
+					return false
+				}
+			}
+		}
+		return sites > 0
+	}
 	for _, fn := range p.Funcs() {
-		if fn.Name() != "generate" || fn.Signature.Recv() == nil {
+		if fn.Pkg != p.Pkg(deflRel) {
 			continue
 		}
-		recv := fn.Params[0]
 		lab := newLabeler()
 		for _, c := range allCalls(fn) {
 			if c.Common().StaticCallee() != lz {
@@ -121,15 +155,46 @@ func ruleR19_2(p *Program, r *Report) {
 			a := c.Common().Args[3]
 			good := false
 			if bo, isB := stripConv(a).(*ssa.BinOp); isB && bo.Op == token.SHL {
-				if k, isK := constInt(bo.X); isK && k == 1 {
-					if root, sel, isL := fieldLoad(stripConv(bo.Y)); isL && root == recv && sel == ".windowLevel" {
-						good = true
-					}
+				if k, isK := constInt(bo.X); isK && k == 1 && isWindowLevel(bo.Y, fn, 0) {
+					good = true
 				}
+			} else if isP := func() bool { _, ok := stripConv(a).(*ssa.Parameter); return ok }(); isP {
+				// the size itself is a parameter: every caller must pass 1 << windowLevel
+				good = sizeFromWindowLevel(p, stripConv(a).(*ssa.Parameter), fn, isWindowLevel)
 			}
-			r.Check(good, "R19.2", shortFn(fn)+"|"+lab.get("lz77 historySize"), p.InstrPos(c), "the Go match finder is given 1 << windowLevel as its history size", "history size argument is "+a.String())
+			r.Check(good, "R19.2", shortFn(fn)+"|"+lab.get("lz77 historySize"), p.InstrPos(c), "the Go match finder is given 1 << windowLevel as its history size", "history size argument is "+a.String()+", which is not 1 << (the context's windowLevel) on every way into this call")
 		}
 	}
+}
+
+// sizeFromWindowLevel: parameter prm of fn receives `1 << windowLevel` at every call site.
+func sizeFromWindowLevel(p *Program, prm *ssa.Parameter, fn *ssa.Function, isWL func(ssa.Value, *ssa.Function, int) bool) bool {
+	idx := -1
+	for i, q := range fn.Params {
+		if q == prm {
+			idx = i
+		}
+	}
+	if idx < 0 {
+		return false
+	}
+	sites := 0
+	for _, g := range p.Funcs() {
+		for _, cc := range allCalls(g) {
+			if cc.Common().StaticCallee() != fn || idx >= len(cc.Common().Args) {
+				continue
+			}
+			sites++
+			bo, isB := stripConv(cc.Common().Args[idx]).(*ssa.BinOp)
+			if !isB || bo.Op != token.SHL {
+				return false
+			}
+			if k, isK := constInt(bo.X); !isK || k != 1 || !isWL(bo.Y, g, 0) {
+				return false
+			}
+		}
+	}
+	return sites > 0
 }
 
 func stripConv(v ssa.Value) ssa.Value {
